@@ -427,3 +427,6 @@ R.contract(
     replayable=False,
 )
 
+# create_test (settings merge, seed, phases) is verified in C13's module; its clauses about the user's limits / about a test being built at all belong to this property too
+# (finding F05b): the same job runs as part of this check.
+SHARED_JOBS = [("C13", "schemathesis.generation.hypothesis.builder:create_test")]
